@@ -374,7 +374,7 @@ func c09cFaults(t *testing.T, rep *lib.Report) {
 				}
 			case "delete-repo":
 				if err == nil {
-					for _, k := range cw.w.Meta.RawKeys() {
+					for _, k := range append(cw.w.Meta.RawKeys(), cw.w.VMeta.RawKeys()...) {
 						if strings.HasPrefix(k, "repos/a/") || strings.HasPrefix(k, "bundles/a/") || strings.HasPrefix(k, "labels/a/") {
 							x.Violate("C09|under-fault|delete-success-but-keys-left", fmt.Sprintf("%s returned nil under %s; %s still exists", o.name, site, k))
 							break
